@@ -517,6 +517,13 @@ int main(int argc, char **argv) {
             op_findlast(hs, n, 1ull << 31, ci); op_findlast(hs, n, ~0ull, ci);
             op_affix(hs, n, ci);
         }
+        // every byte value as a single-unit needle against its bit-5 and bit-7 twins: the case-insensitive forms
+        // must fold ASCII letters only ('@' is not '`', '[' is not '{', NUL is not ' '), whatever the needle form
+        for (int c = 0; c < 256; ++c) {
+            Bytes n(1, (char)c);
+            for (const Bytes &hs : {Bytes(1, (char)(c ^ 0x20)), Bytes{(char)(c ^ 0x20), (char)c}, Bytes{(char)(c ^ 0x80), (char)(c ^ 0x20), 'x', (char)c, (char)(c ^ 0x20)}})
+                for (int ci = 0; ci < 2; ++ci) { op_find(hs, n, 0, ci); op_findlast(hs, n, ~0ull, ci); op_affix(hs, n, ci); }
+        }
     } else if (gen == "c07rand") {
         for (long long k = 0; k < count; ++k) {
             Bytes n = rand_bytes(rng, alpha, 4); Bytes hs = planted(rng, alpha, n, 40); bool ci = rng.below(2);
@@ -564,6 +571,13 @@ int main(int argc, char **argv) {
         for (size_t n = L - 3; n <= L + 3; ++n) for (const char *from : {"a", "ab", "b c"}) for (const char *to : {"", "x", "xy", "xyz", "abab"})
             for (int ci = 0; ci < 2; ++ci) { Bytes s; while (s.size() < n) s += "ab c"; s.resize(n); op_replace(s, from, to, ci); op_split(s, from, ~0ull, ci); }
         for (auto &s : strs) op_tokenize(s, " \t\r\n");
+        // every byte value next to delimiters / separators it shares its low bits with: only the exact bytes cut
+        for (int c = 1; c < 256; ++c) {
+            Bytes s{'a', (char)c, 'b', (char)(c ^ 0x80), 'c', (char)(c ^ 0x20), 'd'};
+            for (const char *ds : {" ", ",", "/", ";", " ,;/\t", "\t\r\n "}) op_tokenize(s, ds);
+            op_tokenize(s, Bytes(1, (char)c));
+            for (int ci = 0; ci < 2; ++ci) { op_split(s, Bytes(1, (char)c), ~0ull, ci); op_replace(s, Bytes(1, (char)c), "#", ci); }
+        }
     } else if (gen == "c09rand") {
         std::vector<long long> al = {97, 65, 98, 0, 32, 0xC3, 0xA9};
         for (long long k = 0; k < count; ++k) {
